@@ -708,7 +708,7 @@ Section ConcProofs.
   Proof.
     induction l; simpl; intros H1 H2 H; auto. inversion H1; subst. constructor.
     - rewrite in_app_iff. intros [Hin|Hin]; [contradiction|]. exact (H a (or_introl eq_refl) Hin).
-    - apply IHl; auto. intros b Hb. apply H. auto.
+    - apply IHl; auto.
   Qed.
 
   (* a ForEach in progress has yielded no key twice, and only keys of segments it has passed *)
@@ -768,7 +768,7 @@ Section ConcProofs.
       + intros E; inversion E; subst s'. apply rd_generic; simpl; auto.
     - intros E; inversion E; subst s'. apply rd_generic; simpl; auto.
     - destruct (lock_free s _); [|discriminate]. intros E; inversion E; subst s'.
-      apply rd_generic; simpl; auto. intros o [<-|Ho]; auto. right. exact Logic.I.
+      apply rd_generic; simpl; auto. intros o [<-|Ho]; auto; right; exact Logic.I.
     - destruct (Nat.ltb_spec i (nsegs (c_map s))) as [Hi|Hi].
       + destruct (lock_free s i); [|discriminate]. intros E; inversion E; subst s'.
         apply rd_generic; simpl; auto.
@@ -837,18 +837,18 @@ Definition occ_sched : list nat := repeat 0 60 ++ repeat 1 39 ++ repeat 2 9 ++ r
 Lemma occ_witness :
   let s := c_run (init (new_segmap 4 0) occ_progs) occ_sched in
   quiescent s = true /\ inside s = 0%Z /\ entries s = 2%Z /\ sm_count (c_map s) = 2%Z /\
-  sm_all (c_map s) = [(15%N, 3%N); (13%N, 4%N)].
+  sm_all (c_map s) = [(15%N, 3%N); (13%N, 4%N)] /\ c_exh s = 2%Z.
 Proof. vm_compute. repeat split; reflexivity. Qed.
 
 Theorem occupancy_bound_refuted_lemma :
   exists progs sched, only_swc_cap 1 progs /\
     let s := c_run (init (new_segmap 4 0) progs) sched in
-    quiescent s = true /\ (entries s > 1 + inside s)%Z.
+    quiescent s = true /\ (entries s > 1 + inside s)%Z /\ (0 < c_exh s)%Z.
 Proof.
   exists occ_progs, occ_sched. split.
   - intros p Hp c Hc. unfold occ_progs in Hp. simpl in Hp.
     repeat (destruct Hp as [<-|Hp]; [simpl in Hc; destruct Hc as [<-|[]]; eauto|]). destruct Hp.
-  - destruct occ_witness as [A [B [C _]]]. split; [exact A|]. rewrite B, C. lia.
+  - destruct occ_witness as [A [B [C [_ [_ D]]]]]. split; [exact A|]. rewrite B, C, D. lia.
 Qed.
 
 (* Clear concurrent with writers (the interleaving that lost a Set before aae41ee): now exact *)
